@@ -218,6 +218,18 @@ def shared_objects(rep, rnd, tier):
         pd = parser_for(stack).parse(buf)
         if changed(bufs, before):
             rep.violation('property', 'parse modified the packet buffer', dict(layer='history', op='parse', stack=stack, packet=pkt.hex()))
+        # what parse returned belongs to the caller: editing every returned Buffer in place (fields, payload, raw) must not show in the
+        # next parse -- by the same parser, by another parser of the registry, or of another packet (shared constants handed out as values)
+        first_obs = [(str(f.id), f.position, bits_of(f.value)) for f in pd.fields] + [bits_of(pd.payload)]
+        scr = parser_for(stack).parse(Buffer(pkt, len(pkt) * 8))
+        for x_ in [f.value for f in scr.fields] + [scr.payload, scr.raw]:
+            impl_outcome(lambda: (x_.shift(-3, inplace=True), x_.pad(L if x_.padding is R else R, inplace=True), x_.__setitem__(slice(0, min(8, x_.length)), mk('01010101')[0:min(8, x_.length)])))
+        again = impl_outcome(lambda: parser_for(stack).parse(Buffer(pkt, len(pkt) * 8)))
+        rep.count('shared:parse-after-editing-results', key=('spe', i))
+        rep.oracle_evals += 1
+        if again[0] != 'OK' or [(str(f.id), f.position, bits_of(f.value)) for f in again[1].fields] + [bits_of(again[1].payload)] != first_obs:
+            rep.violation('property', 'after the Buffers returned by an earlier parse were edited in place, parsing the same packet again gives other fields',
+                          dict(layer='history', op='parse-after-editing-results', stack=stack, packet=pkt.hex()))
         pd.direction = DI.UP
         rules = [gen_rule(rnd, pd, randbits(rnd, 4), kinds=k) for k in (('vs', 'vsv'), ('lsb', 'lsbv', 'ns'), KINDS, ('map', 'vs'))]
         ruler = Ruler(rules)
@@ -399,9 +411,13 @@ def module_tables():
                 continue
             if isinstance(v, (dict, list, set, tuple)) and len(v):
                 out['%s.%s' % (mn, name)] = canon(v)
+            elif isinstance(v, (Buffer, bytes, bytearray)):
+                out['%s.%s' % (mn, name)] = canon(v) if isinstance(v, Buffer) else bytes(v).hex()
             elif isinstance(v, type) and getattr(v, '__module__', '') == mn and not issubclass(v, enum.Enum):
                 for an, av in sorted(vars(v).items()):
                     if not an.startswith('__') and isinstance(av, (dict, list, set, tuple)) and len(av):
+                        out['%s.%s.%s' % (mn, name, an)] = canon(av)
+                    elif not an.startswith('__') and isinstance(av, Buffer):
                         out['%s.%s.%s' % (mn, name, an)] = canon(av)
     return out
 
@@ -459,6 +475,19 @@ def process_histories(rep, rnd, tier):
             rule = gen_rule(rnd, pd, randbits(rnd, rnd.randint(1, 6)), kinds=('comp', 'comp', 'comp', 'vs', 'ns'))
             ncomp = sum(1 for k in rule._kinds if k == 'comp')
             got = obs_bits(with_timeout(lambda: compress(pd, rule)))
+            if step % 2 == 1 and got[0] == 'OK' and isinstance(got[1], str):
+                # a call that FAILS half-way (a mis-provisioned rule: a field without compute function marked compute after a computed
+                # one, a mapping where a buffer is expected) must leave nothing behind for the next, well-formed call
+                bad_fds = list(rule.field_descriptors)
+                comp_at = [j for j, k_ in enumerate(rule._kinds) if k_ == 'comp']
+                later = [j for j, k_ in enumerate(rule._kinds) if k_ != 'comp' and comp_at and j > comp_at[0]]
+                if later:
+                    j = rnd.choice(later)
+                    o_ = bad_fds[j]
+                    bad_fds[j] = RuleFieldDescriptor(o_.id, o_.length, o_.position, o_.direction, o_.target_value, MO.IGNORE, CDA.COMPUTE)
+                    bad = RuleDescriptor(id=rule.id, field_descriptors=bad_fds)
+                    r_ = impl_outcome(lambda: decompress(mk(got[1], R), bad))
+                    rep.hist['process-history:failed-call-before:%s' % (r_[1] if r_[0] == 'EXC' else 'ok')] = rep.hist.get('process-history:failed-call-before:%s' % (r_[1] if r_[0] == 'EXC' else 'ok'), 0) + 1
             rep.count('process-history:%s' % what, key=('ph', h, step))
             rep.oracle_evals += 1
             rep.hist['process-history:computed-fields:%d' % min(ncomp, 6)] = rep.hist.get('process-history:computed-fields:%d' % min(ncomp, 6), 0) + 1
